@@ -266,6 +266,13 @@ pub fn schedsoup(g: &mut Gen, far_rearm: bool) -> String {
 /// end in a call of a unit closure, called from dsp as statements, and self-re-arming scheduled
 /// tasks.  Returns the source and whether it needs the scheduler.
 pub fn unit_closures(g: &mut Gen) -> (String, bool) {
+    unit_closures_with(g, false).0
+}
+
+/// `named_tasks`: also schedule NAMED functions (a global function that re-arms itself — the
+/// shipped fixture scheduler_global_recursion.mmm — or one that dsp schedules on every sample); the
+/// second result tells whether such a task was generated
+pub fn unit_closures_with(g: &mut Gen, named_tasks: bool) -> ((String, bool), bool) {
     let mut s = String::from("let acc = 0.0\n");
     let nb = g.int(1, 3) as usize;
     let upd = |g: &mut Gen, v: &str| -> String {
@@ -297,12 +304,25 @@ pub fn unit_closures(g: &mut Gen) -> (String, bool) {
         }
         s.push_str(&format!("     gen@(now+{}.0)\n  }}\n  gen@1.0\n}}\nstart()\n", g.int(1, 3)));
     }
+    let mut named = 0u64;
+    if named_tasks {
+        named = g.below(4); // 0 none, 1 self-re-arming global function, 2 scheduled by dsp, 3 both
+        if named & 1 == 1 {
+            s.push_str(&format!("fn tick(){{\n  {}\n  tick@(now+{}.0)\n}}\ntick@1.0\n", upd(g, "1.0"), g.int(1, 3)));
+        }
+        if named & 2 == 2 {
+            s.push_str(&format!("fn once(){{\n  {}\n}}\n", upd(g, "0.5")));
+        }
+    }
     s.push_str("fn dsp(){\n");
+    if named & 2 == 2 {
+        s.push_str(&format!("  once@(now+{}.0)\n", g.int(1, 2)));
+    }
     let nc = g.int(if sched { 0 } else { 1 }, 3);
     for _ in 0..nc {
         let arg = *g.pick(&["1.0", "now", "acc * 0.5", "2.5"]);
         s.push_str(&format!("  bump{}({arg})\n", g.usize_below(nb)));
     }
     s.push_str("  acc\n}\n");
-    (s, sched)
+    ((s, sched || named > 0), named > 0)
 }
